@@ -12,18 +12,37 @@ PROPS = {
         "engines": ["K", "X"],
         "k": {"jobs": 14, "timeout": 600},
         "technique": "contract-based deductive verification: Kani/CBMC contracts over every f32 bit pattern for the LUT encoders (incl. the unsafe table read), exact-rational break-point certificates for accuracy",
-        "level_text": "todo",
-        "level_note": "todo",
+        "level_text": 'Every integer fast path (Srgb, RecOetf, AdobeRgb, P3Gamma u8; ProPhoto u16 with gamma_lut_u16) is under contract T1-T5 discharged by CBMC for EVERY f32 bit pattern (NaN, infinities, negatives): the unsafe table read is in bounds (Kani checks the get_unchecked precondition itself), saturation at both ends, monotone for all ordered pairs, decode-then-encode identity for every code, f64 entry == f32 entry. Accuracy (<0.6 code from the exact standard curve) and the decoder tables are discharged by an exact-rational break-point certificate built on the proven monotonicity.',
+        "level_note": 'Trusted: Kani/CBMC; Python big-integer arithmetic; the mathematical fact that each standard curve is increasing (reduces the error bound on a float interval to its end points). ProPhoto u16 monotone/decode-encode/f64-entry are thorough-tier only and currently exceed the harness timeout (not counted). Generic float curves (IntoLinear<T,T>/FromLinear<T,T>) are engine S obligations (inverse, == standard curve, monotone per segment, knee step).',
+        "assumptions": ['decoder tables are compared with the published curve to 1e-7: the generated tables use a continuity-corrected alpha that differs from the published constants by 2.3e-9 at code 11'],
+        "not_decided": ['table generator (codegen/) is not verified; the generated tables are, through T1-T6', 'ProPhoto u16 relational obligations (CBMC timeout)'],
+    },
+    "C11": {
+        "engines": ["K"],
+        "k": {"jobs": 14, "timeout": 600},
+        "technique": "contract-based deductive verification: Kani/CBMC contracts over every f32 angle with |x| <= 2^20 for normalisation, congruence, equality, accessors and the 8-bit mapping",
+        "level_text": 'For each of the five hue types the normalisation, accessor and conversion functions are under contracts discharged by CBMC for EVERY f32 angle with |x| <= 2^20: both normal forms in range and congruent to the stored angle modulo 360 (within the rounding error of the stored angle, checked in exact f64 arithmetic), every signed accessor (into_degrees, f32::from, f64::from, into_radians) under the same contract, raw/radian accessors and Add/Sub bitwise, float->u8 == nearest code with 256->0, all 256 8-bit hues round trip.',
+        "level_note": "Trusted: Kani/CBMC. Equality under whole turns (E1) and its converse (E2) are full-domain only in the thorough tier (CBMC needs >10 min); the quick tier runs them on |angle| <= 2048, labelled bounded and not counted as proved. f64: single-call obligations only. from_cartesian/into_cartesian (atan2, sin_cos) are outside CBMC's reach and are engine S obligations under M1.",
+        "assumptions": ["E1's premise 'b == a + 360n exactly' is stated with both the f64 sum and the f64 difference being exact (a rounded f64 sum can coincide with an f32 when |a| is tiny)"],
+        "not_decided": ['cartesian round trip in floating point (transcendental functions)', 'f64 relational obligations'],
+    },
+    "C12": {
+        "engines": ["K"],
+        "k": {"jobs": 12, "timeout": 600},
+        "technique": "contract-based deductive verification: Kani/CBMC contracts for packing over all 2^32 values, parse strictness/totality against a well-formedness spec, format->parse round trip over all 8-bit colours, the published name table",
+        "level_text": "Packing/unpacking is under contract for all 2^32 packed values x 4 RGBA orders (+2 luma orders): both round trips and every channel at its documented big-endian byte position, From<u32> ARGB/RGBA. Parsing is under a strictness+totality contract against an independent well-formedness spec (optional '#', exactly the documented digit counts of ASCII hex digits) for all ASCII strings within the stated length bound and all strings of up to 3 arbitrary Unicode scalar values (multi-byte included); format->parse round trip for all 2^24 Rgb<u8> and 2^32 Rgba<u8> colours through the real core::fmt code; all published (name, colour) pairs re-derived from svg_colors.txt are found and the map holds nothing else.",
+        "level_note": "Trusted: Kani/CBMC incl. its handling of core::fmt and from_str_radix loops (fully unwound, unwinding assertions on). String obligations are bounded(length) - lengths above the bound only reach the `_ => Err` arm, which the bounded run covers for the lengths just above every accepted short form; long (12/16/24/32 digit) forms of the wide types are beyond the quick bound. phf's get is executed symbolically for concrete names only; 'nothing else is found' relies on entries().count() plus phf::Map::get returning only stored entries (dependency contract).",
         "assumptions": [],
+        "not_decided": ['16/32-bit format->parse round trips (core::fmt on u32 exceeds the budget)', 'long hex forms of u16/u32/f32/f64 component types in the quick tier'],
     },
     "C06": {
         "engines": ["K"],
-        "k": {"jobs": 14, "timeout": 600},
+        "k": {"jobs": 14, "timeout": 600, "timeout_thorough": 3600},
         "technique": "contract-based deductive verification: Kani/CBMC single-call contracts against spec expressions over the full bit domain of every source format",
         "level_text": "Each of the 42 IntoStimulus impls is under a single-call contract against a spec expression taken from the property (saturation at both ends incl. -inf/+inf/NaN, ties-to-even nearest integer of the once-rounded product, 0->0, MAX->1.0/MAX, bit replication, monotonicity, round trips), discharged by CBMC over the FULL bit domain of the source format (all f32/f64 patterns, all u8..u128 values; all ordered pairs for the relational clauses). into_format/from_format forwarding on Rgb/Alpha/Luma is a component-wise equality contract.",
         "level_note": "Trusted: Kani MIR translation, CBMC IEEE-754 encoding. Quick tier = the obligations finishing within ~4 min; the f64-division-heavy ones (u32->u16, u64->u16/u32, u128->u16/u32 narrowing, u32 round trips through u64/u128/f64, f64->u32) are registered in thorough only if they discharge within the harness timeout, otherwise listed as not decided. Monotonicity for f64 sources is the lemma 'composition of monotone correctly rounded operations' over the discharged single-call spec equality (IEEE monotonicity of x*c, min, max, round-to-nearest assumed). Four genuine defects found here were repaired (known_findings.json).",
         "assumptions": ["f64-source monotonicity: lemma over the spec (y == rne(clamp(fl(x*MAX),0,MAX))), relying on IEEE-754 monotonicity of multiplication by a positive constant, min/max and round-to-nearest-even"],
-        "not_decided": ["thorough-only obligations that exceed the harness timeout are dropped from the table rather than left flaky; see DESIGN.md C06"],
+        "not_decided": ["f64->u32 nearest-integer clause, and monotonicity/end points of u64->u16, u64->u32, u128->u16, u128->u32: CBMC did not finish in 1500 s; not registered (same macro arms as discharged neighbours)"],
     },
     "C03": {
         "engines": ["K"],
@@ -51,7 +70,7 @@ def check(prop, tier, seed):
     obs, cmds, vac, trusted = [], [], {}, []
     if "K" in cfg["engines"]:
         k = cfg.get("k", {})
-        o, c, v, log = kengine.run_property(prop, tier, jobs=int(os.environ.get("VERIF_KJOBS", k.get("jobs", 12))), harness_timeout=int(os.environ.get("VERIF_KTIMEOUT", k.get("timeout", 600))))
+        o, c, v, log = kengine.run_property(prop, tier, jobs=int(os.environ.get("VERIF_KJOBS", k.get("jobs", 12))), harness_timeout=int(os.environ.get("VERIF_KTIMEOUT", k.get("timeout_thorough", k.get("timeout", 600)) if tier == "thorough" else k.get("timeout", 600))))
         obs += o; cmds += c; vac["kani"] = v; trusted += kengine.TRUSTED
         os.makedirs(os.path.join(BUILD, "logs"), exist_ok=True)
         open(os.path.join(BUILD, "logs", "%s-kani.log" % prop), "w").write(log)
